@@ -351,6 +351,7 @@ pub fn oracle(
     pairs: &[(usize, usize)],
     unlimited: Option<&[(usize, usize)]>,
     prefiltered: bool,
+    judge_completeness: bool,
 ) -> Verdict {
     let mut v = Verdict { failures: vec![], judged_a: 0, skipped_groups: 0 };
     let ok_a: Vec<bool> = ra.iter().map(|r| side(wh, ty_a, r)).collect();
@@ -362,7 +363,9 @@ pub fn oracle(
         let (a, b) = (&ra[ia], &rb[ib]);
         let la = a.link(lf);
         let lb = b.link(lf);
-        if la.is_none() || la != lb {
+        if la.is_none() && lb.is_none() {
+            v.failures.push(("null-link-grouped".into(), format!("pair a{}.{} b{}.{}: both link values are null/absent", a.zone, a.idx, b.zone, b.idx)));
+        } else if la.is_none() || la != lb {
             v.failures.push(("-".into(), format!("pair a{}.{} b{}.{} link values differ/absent", a.zone, a.idx, b.zone, b.idx)));
         }
         if let (Some(ta), Some(tb)) = (a.num(tf), b.num(tf)) {
@@ -392,6 +395,9 @@ pub fn oracle(
                 v.failures.push(("-".into(), "LIMIT result contains a pair the unlimited run does not".into()));
             }
         }
+    }
+    if !judge_completeness {
+        return v;
     }
     // 3. completeness: judged on the unlimited result when there is one
     let full: &[(usize, usize)] = match (limit, unlimited) {
@@ -741,21 +747,27 @@ fn gen_case(r: &mut Rng) -> Case {
         with_evaluator: r.chance(1, 2),
     };
     if r.chance(3, 5) {
-        let d = r.below(4) as u32;
-        c.wh = Some(gen_expr(r, (ty_a, ty_b), d));
+        c.wh = Some(if r.chance(1, 3) {
+            // a single range condition on the b side: the shape that exposes the nearest-partner sweep
+            let ops = [Op::Gt, Op::Gte, Op::Lt, Op::Lte, Op::Neq];
+            E::Cmp(format!("{ty_b}.x"), *r.pick(&ops), Lit::I(r.range(0, 4)))
+        } else {
+            let d = r.below(4) as u32;
+            gen_expr(r, (ty_a, ty_b), d)
+        });
     }
     let shape = r.below(6);
-    let link_kind = r.below(6);
+    let link_kind = *r.pick(&[0, 0, 0, 0, 1, 1, 2, 2, 3, 4, 5, 0]);
     let nz_a = r.below(4) as usize;
     let nz_b = if r.chance(1, 12) { 0 } else { 1 + r.below(3) as usize };
     let big = r.chance(1, 8);
     for _ in 0..nz_a.max(if r.chance(9, 10) { 1 } else { 0 }) {
-        let n = if big { r.below(14) } else { r.below(6) } as usize;
+        let n = if big { r.below(14) } else { r.below(8) } as usize;
         let z = gen_zone(r, n, &c, "ua", shape, link_kind, false);
         c.za.push(z);
     }
     for _ in 0..nz_b {
-        let n = if big { r.below(14) } else { r.below(6) } as usize;
+        let n = if big { r.below(14) } else { r.below(8) } as usize;
         let z = gen_zone(r, n, &c, "ub", shape, link_kind, true);
         c.zb.push(z);
     }
@@ -1003,7 +1015,7 @@ fn run_component(a: &Args, prefilter: bool) {
         };
         let pl = to_idx(&lim);
         let pu = unl.as_ref().map(to_idx);
-        let v = oracle(c.preceded, &c.tf, &c.lf, &c.ty_a, &c.ty_b, &c.wh, c.limit, &ra, &rb, &pl, pu.as_deref(), prefilter);
+        let v = oracle(c.preceded, &c.tf, &c.lf, &c.ty_a, &c.ty_b, &c.wh, c.limit, &ra, &rb, &pl, pu.as_deref(), prefilter, true);
         s.tally_n("oracle:a_events_judged", v.judged_a as u64);
         s.tally_n("oracle:groups_skipped_null_time", v.skipped_groups as u64);
         if v.failures.is_empty() {
